@@ -35,11 +35,12 @@ RULE = ("e2e: every subset of {input, dialog, retrieval, output} (+ the call wit
         "'call without output (often blocked), then calls with output + bot message'; the documented table is applied to every call. "
         "log: synthetic processing logs (rail segments finished / unfinished, dialog steps, ignored flows and actions, LLM infos) and a malformed "
         "stream (finish without start, action outside a rail, nested starts). non-trivial = e2e with at least one rail invoked or one LLM call, "
-        "log with at least one rail start; distinct = distinct case JSON.")
+        "log with at least one rail start; distinct = distinct case JSON. "
+        "interp: rails of the two shipped shapes (check rail / rewriting rail, one registered action each) in lists of 0-4 input x 0-3 output rails x the 17 option values x texts: the real runtime vs the interpreter model on the generated llm_flows.co program (RailsInterp.drive), rail calls, LLM calls, reply and the complete event sequence of the call.")
 TRUSTED_BASE = [
     "translator harness/translate/c16.py (literal lists of compute_generation_log by AST path; llm_flows.co guards through the repo's own Colang 1.0 parser + Python ast)",
     "correspondence harness harness/props/C16.py + harness/impl/pipeline_opts.py (scripted rails, FakeLLM, md5 embedding engine, processing-log abstraction) + Lean driver Drive/C16.lean (JSON codecs, rule-table interpreter)",
-    "the Colang 1.0 interpreter (flows.py/runtime.py) is NOT modelled here: that `PipelineOpts.turn` is what the interpreter does with llm_flows.co is validated by execution on every run, not proved",
+    "the Colang 1.0 interpreter model (C14's V1Interp) inside RailsInterp.drive (generate_events with scripted actions) is PROVED to refine PipelineOpts.turn (pipeline_refines_interp, unbounded rail lists); that this model is what flows.py/runtime.py do is validated by C14's correspondence and by the `interp` family (harness/impl/c16_interp.py, event for event against log.internal_events), not proved",
 ]
 ASSUMPTIONS = [
     "Colang 1.0; options.rails given as a list of category names or omitted (per-rail name lists are documented as unsupported)",
